@@ -11,7 +11,9 @@ REQUIRED = ['C12.segs_partition', 'C12.segs_nonempty', 'C12.segs_no_internal_wra
             'C12.cv_values', 'C12.cv_all_cover', 'C12.cv_no_wrap_none', 'C12.cv_label_block',
             'C12.code_model_refines', 'C12.code_model_all_cover', 'C12.code_model_no_wrap',
             'C12.code_model_boundaries', 'C12.code_model_slices_nonempty', 'C12.code_model_tests_only_slices',
-            'C12.code_model_never_tests_empty', 'C12.is_good_never_raises', 'C12.getCycleVector_all_cover']
+            'C12.code_model_never_tests_empty', 'C12.is_good_never_raises', 'C12.getCycleVector_all_cover',
+            'C12.explicit_step_used_as_given', 'C12.partition_every_step', 'C12.step_zero_partition',
+            'C12.step_negative_every_sample_a_cycle', 'C12.step_not_exceeded_no_cycles']
 TRUSTED = ['wrap_phase (x % 2pi) is an oracle: the branch `if phase.max() > 2*pi: phase = wrap_phase(phase)` of get_cycle_vector is not modelled; '
            'phases above 2pi are wrapped by the real emd.utils.wrap_phase before they reach the model, and no theorem (in particular not the '
            '"never fails" theorems C12.code_model_slices_nonempty / C12.is_good_never_raises) speaks about that branch',
@@ -65,7 +67,7 @@ class Exhaustive(Stream):
         return outs
 
     def ops(self, case, out):
-        return [_cyc.cv_op(seq, _cyc.step_of(case), case['good'], _cyc.DEFAULT_EDGE, None)
+        return [_cyc.cv_op(seq, _cyc.step_of(case), case['good'], _cyc.DEFAULT_EDGE, None, arg=case.get('step'))
                 for seq in _cyc.enum_block(case['len'], case['prefix'])]
 
     def compare(self, case, out, results):
@@ -183,7 +185,7 @@ class Single(Stream):
         return out
 
     def ops(self, case, out):
-        return [_cyc.cv_op(c, _cyc.step_of(case), case['good'], _cyc.edge_of(case), None) for c in self._wrapped_cols(case)]
+        return [_cyc.cv_op(c, _cyc.step_of(case), case['good'], _cyc.edge_of(case), None, arg=case.get('step')) for c in self._wrapped_cols(case)]
 
     def _near_tie(self, case):
         step = _cyc.step_of(case)
